@@ -57,6 +57,9 @@ def run(ctx):
     import glob
     for f in sorted(glob.glob(os.path.join(build.VERIF, "corpus", "modules", "*.hex"))):
         cases.append(("corpus:" + os.path.basename(f), bytes.fromhex(open(f).read().strip())))
+    # every integer operation at every pair of boundary operands (1872 tiny modules; all tiers)
+    for lab, d in gen_mod.arith_boundary_modules(L, tab):
+        cases.append((lab, d))
     # synthetic instruction soups
     nsyn = 400 if quick else 6000
     for k in range(nsyn):
